@@ -185,10 +185,13 @@ func (c *Component) SendIQ(ctx context.Context, iq *stanza.IQ) (chan stanza.IQ, 
 	if iq.Attrs.Type != stanza.IQTypeSet && iq.Attrs.Type != stanza.IQTypeGet {
 		return nil, ErrCanOnlySendGetOrSetIq
 	}
+	// Register the pending request before writing it: the response can arrive before Send returns
+	result := c.router.NewIQResultRoute(ctx, iq.Attrs.Id)
 	if err := c.Send(iq); err != nil {
+		c.router.removeIQResultRoute(iq.Attrs.Id)
 		return nil, err
 	}
-	return c.router.NewIQResultRoute(ctx, iq.Attrs.Id), nil
+	return result, nil
 }
 
 // SendRaw sends an XMPP stanza as a string to the server.
